@@ -63,7 +63,7 @@ def jobs(tier, seed):
         out.append(_j(f'stud-{n}-handed', C.stud((40,) * n), dev_bound=1, opts={'raises': 'min'}))
     for j in out:
         j.setdefault('state_cap', 500000 if th else 80000)
-        j.setdefault('time_cap', 800 if th else 70)
+        j.setdefault('time_cap', 1800 if th else 400)
     return out
 
 
